@@ -49,7 +49,8 @@ def stepAll (v : Variant) : Outcome → List Update → Outcome
   | .ok r, u :: us => stepAll v (r.step v u) us
 
 def runCase (v : Variant) (line : String) : String :=
-  match line.splitOn "|" with
+  -- an optional 4th field (the scenario that produced the events, for replay) is ignored
+  match (line.splitOn "|").take 3 with
   | ["h", qs, evs] =>
     match (words qs).mapM parsePrefix, (words evs).mapM (parseEv v) with
     | some qs, some uss =>
